@@ -462,6 +462,7 @@ func (e *Sim) Run(ctx *core.Ctx, idx int) {
 	if e.P.CanarySteady {
 		for _, ref := range refs {
 			w.CanarySteadyState(ref.ns, ref.name)
+			w.CanaryUnresponsiveNode(ref.ns, ref.name)
 		}
 	}
 	if e.P.Converge {
